@@ -10,6 +10,7 @@ type packetAccumulator struct {
 	pid        uint16
 	programMap *programMap
 	q          []*Packet
+	done       []*Packet // Complete PSI payload waiting behind the payload flushed by the same packet
 }
 
 // newPacketAccumulator creates a new packet queue for a single PID
@@ -47,7 +48,7 @@ func (b *packetAccumulator) add(p *Packet) (ps []*Packet) {
 
 	// Flush buffer if new payload starts here
 	if p.Header.PayloadUnitStartIndicator {
-		ps = mps
+		ps = b.withSectionEnd(mps, p)
 		mps = make([]*Packet, 0, cap(mps))
 	}
 
@@ -57,7 +58,12 @@ func (b *packetAccumulator) add(p *Packet) (ps []*Packet) {
 	if b.programMap != nil &&
 		(b.pid == PIDPAT || b.programMap.existsUnlocked(b.pid)) &&
 		isPSIComplete(mps) {
-		ps = mps
+		if len(ps) > 0 {
+			// The packet that flushes the previous payload completes its own one as well: it comes next
+			b.done = mps
+		} else {
+			ps = mps
+		}
 		mps = nil
 	}
 
@@ -65,10 +71,29 @@ func (b *packetAccumulator) add(p *Packet) (ps []*Packet) {
 	return
 }
 
+// withSectionEnd completes the pending packets of a PSI PID with the end of their last section: sections may be
+// packed back to back, and in the packet that starts the next payload unit the bytes between the pointer field and
+// the byte it points to still belong to the previous section. Without them that section is flushed incomplete
+func (b *packetAccumulator) withSectionEnd(mps []*Packet, p *Packet) []*Packet {
+	if len(mps) == 0 || b.programMap == nil || !isPSIPayload(b.pid, b.programMap) || len(p.Payload) == 0 {
+		return mps
+	}
+	l := int(p.Payload[0])
+	if l == 0 || 1+l > len(p.Payload) {
+		return mps
+	}
+	end := *p
+	end.Header.PayloadUnitStartIndicator = false
+	end.Payload = p.Payload[1 : 1+l]
+	return append(mps, &end)
+}
+
 // packetPool represents a queue of packets for each PID in the stream
 type packetPool struct {
 	// We use map[uint32] instead map[uint16] as go runtime provide optimized hash functions for (u)int32/64 keys
 	b map[uint32]*packetAccumulator // Indexed by PID
+
+	done []*Packet // Complete payload waiting behind the one addUnlocked returned last
 
 	programMap *programMap
 }
@@ -103,7 +128,15 @@ func (b *packetPool) addUnlocked(p *Packet) (ps []*Packet) {
 	}
 
 	// Add to the accumulator
-	return acc.add(p)
+	ps = acc.add(p)
+	b.done, acc.done = acc.done, nil
+	return
+}
+
+// doneUnlocked returns the complete payload waiting behind the one addUnlocked returned last, if any
+func (b *packetPool) doneUnlocked() (ps []*Packet) {
+	ps, b.done = b.done, nil
+	return
 }
 
 // dumpUnlocked dumps the packet pool by looking for the first item with packets inside
